@@ -3,46 +3,46 @@ import NmlVerif.Gen.Members
 /-!
 # C09 — with build-time validation on, factories never hand back an invalid component
 
-Model: `NmlVerif.Factory` (`Model/Factory.lean`) over the member table `Gen/Members.lean` (regenerated from
-`neuroml/nml/nml.py` on every run); tied to `component_factory` / `_check_arg_list` / `add` /
-`build_time_validation.ENABLED` by the correspondence check `harness/props/c09.py` (all 199 types ×
-{valid, facet-violating, misspelt keywords} × 4 switch settings × string/class form × three entry points).
+Model: `NmlVerif.Factory` (`Model/Factory.lean`) over the member table `Gen/Members.lean` and the constructor table
+`Gen/Factory.lean` (both regenerated from the source on every run); tied to `component_factory` /
+`_check_arg_list` / `add` / `build_time_validation.ENABLED` by translation (`Props/C09Gen.lean`: the statement-level
+translations equal this hand model) and by the correspondence check `harness/props/c09.py`.
 
-Every theorem is for EVERY table `T`, every environment `env` (verdict of `validate()`, constructor cast failures,
-`Cell.setup_nml_cell`), every type argument and every keyword list.
+Every theorem here is for EVERY member table `T`, every constructor table `C`, every environment `env` (verdict of
+`validate()`, Python's `int()`/`float()`, `Cell.setup_nml_cell`), every type argument and every keyword list.
 -/
 namespace NmlVerif.Factory
 open NmlVerif NmlVerif.Add
 
 /-- **Validation on ⇒ valid or ValueError.** Global switch on and `validate=True`: for every component type of the
     table the factory either raises a `ValueError` or returns a component that `validate()` accepts. -/
-theorem c09_valid_or_raises (T : Table) (env : Env) (t : TypeArg) (kw : Kwargs) (oid : Nat)
+theorem c09_valid_or_raises (T : Table) (C : CtorTable) (env : Env) (t : TypeArg) (kw : Kwargs) (oid : Nat)
     (hcls : T.row? t.resolve ≠ none) :
-    match factory T env true true t kw oid with
+    match factory T C env true true t kw oid with
     | .ok o => env.valid o = true
     | .error e => e.isValueError = true := by
-  have h := factory_cases T env true true t kw oid
-  rcases h with ⟨hr, _⟩ | ⟨_, he⟩ | ⟨_, _, k, _, _, he⟩ | ⟨_, _, _, hres⟩
+  have h := factory_cases T C env true true t kw oid
+  rcases h with ⟨hr, _⟩ | ⟨_, he⟩ | ⟨_, _, k, _, _, he⟩ | ⟨_, _, o, _, hres⟩
   · exact absurd hr hcls
   · rw [he]; rfl
   · rw [he]; rfl
   · rw [hres]
     simp only [Bool.and_self, ↓reduceIte]
-    cases hv : env.valid (built T env t.resolve kw oid) <;> simp [hv, Err.isValueError]
+    cases hv : env.valid (built env t.resolve o) <;> simp [hv, Err.isValueError]
 
 /-- the same, read from the result: what comes back with validation on validates -/
-theorem c09_valid (T : Table) (env : Env) (t : TypeArg) (kw : Kwargs) (oid : Nat) (o : Obj)
-    (h : factory T env true true t kw oid = .ok o) : env.valid o = true := by
-  have hc := c09_valid_or_raises T env t kw oid (by
+theorem c09_valid (T : Table) (C : CtorTable) (env : Env) (t : TypeArg) (kw : Kwargs) (oid : Nat) (o : Obj)
+    (h : factory T C env true true t kw oid = .ok o) : env.valid o = true := by
+  have hc := c09_valid_or_raises T C env t kw oid (by
     intro hr; simp [factory, hr] at h)
   rw [h] at hc; exact hc
 
 /-- **A keyword that is not a member name is always refused** — under EVERY switch setting, for both forms of the
     type argument — with a `ValueError`; it is never silently ignored (although the constructor itself swallows
     it: `c09_ctor_swallows`). -/
-theorem c09_typo (T : Table) (env : Env) (t : TypeArg) (kw : Kwargs) (oid : Nat) (k : Nat)
+theorem c09_typo (T : Table) (C : CtorTable) (env : Env) (t : TypeArg) (kw : Kwargs) (oid : Nat) (k : Nat)
     (hcls : T.row? t.resolve ≠ none) (hk : k ∈ keys kw) (hnm : k ∉ T.memberNames t.resolve) :
-    ∀ enabled flag, ∃ e, factory T env enabled flag t kw oid = .error e ∧ e.isValueError = true := by
+    ∀ enabled flag, ∃ e, factory T C env enabled flag t kw oid = .error e ∧ e.isValueError = true := by
   intro enabled flag
   have hbad : firstBadArg T t.resolve kw ≠ none := by
     unfold firstBadArg
@@ -51,18 +51,19 @@ theorem c09_typo (T : Table) (env : Env) (t : TypeArg) (kw : Kwargs) (oid : Nat)
     have := hnone k hk
     simp only [Bool.not_eq_true, Bool.not_eq_false', List.contains_eq_mem, decide_eq_true_eq] at this
     exact hnm this
-  rcases factory_cases T env enabled flag t kw oid with ⟨hr, _⟩ | ⟨_, he⟩ | ⟨_, _, k', _, _, he⟩ |
-      ⟨_, _, hb, _⟩
+  rcases factory_cases T C env enabled flag t kw oid with ⟨hr, _⟩ | ⟨_, he⟩ | ⟨_, _, k', _, _, he⟩ |
+      ⟨_, hb, _⟩
   · exact absurd hr hcls
   · exact ⟨_, he, rfl⟩
   · exact ⟨_, he, rfl⟩
   · exact absurd hb hbad
 
 /-- the keyword reported is the first offending one and it is indeed not a member name -/
-theorem c09_typo_reports (T : Table) (env : Env) (enabled flag : Bool) (t : TypeArg) (kw : Kwargs) (oid k : Nat)
-    (h : factory T env enabled flag t kw oid = .error (.badArg k)) : k ∈ keys kw ∧ k ∉ T.memberNames t.resolve := by
-  rcases factory_cases T env enabled flag t kw oid with ⟨_, he⟩ | ⟨_, he⟩ | ⟨_, _, k', hf, _, he⟩ |
-      ⟨_, _, _, hres⟩
+theorem c09_typo_reports (T : Table) (C : CtorTable) (env : Env) (enabled flag : Bool) (t : TypeArg) (kw : Kwargs)
+    (oid k : Nat) (h : factory T C env enabled flag t kw oid = .error (.badArg k)) :
+    k ∈ keys kw ∧ k ∉ T.memberNames t.resolve := by
+  rcases factory_cases T C env enabled flag t kw oid with ⟨_, he⟩ | ⟨_, he⟩ | ⟨_, _, k', hf, _, he⟩ |
+      ⟨_, _, o, _, hres⟩
   · rw [he] at h; cases h
   · rw [he] at h; cases h
   · rw [he] at h
@@ -77,29 +78,134 @@ theorem c09_typo_reports (T : Table) (env : Env) (enabled flag : Bool) (t : Type
     · split at h <;> cases h
     · cases h
 
-/-- **the hazard `_check_arg_list` exists for**: the generated constructor ignores keywords that are not member
-    names — the object built from the full keyword list is the object built from the member keywords alone -/
-theorem c09_ctor_swallows (T : Table) (env : Env) (cls : Nat) (kw : Kwargs) (oid : Nat) :
-    construct T env cls kw oid =
-      construct T env cls (kw.filter (fun p => (T.memberNames cls).contains p.1)) oid := by
+/-! ### Validity judged by an independent reference (the XML Schema) — open finding -/
+
+/-- the first sentence of the property with validity judged by an independent judge `schemaOk` (libxml2 on the
+    bundled XSD in the harness) instead of the library's own `validate()` -/
+def c09_schema_valid_full : Prop :=
+  ∀ (T : Table) (C : CtorTable) (env : Env) (schemaOk : Obj → Bool) (t : TypeArg) (kw : Kwargs) (oid : Nat) (o : Obj),
+    factory T C env true true t kw oid = .ok o → schemaOk o = true
+
+/-- it holds for every component `validate()` judges as the schema does (`hsound`: what `validate()` accepts the
+    schema accepts — property C03's claim about `validate()`): the factory adds no hole of its own -/
+theorem c09_schema_valid_partial (T : Table) (C : CtorTable) (env : Env) (schemaOk : Obj → Bool)
+    (hsound : ∀ o, env.valid o = true → schemaOk o = true) (t : TypeArg) (kw : Kwargs) (oid : Nat) (o : Obj)
+    (h : factory T C env true true t kw oid = .ok o) : schemaOk o = true :=
+  hsound o (c09_valid T C env t kw oid o h)
+
+/-! ### The generated constructor (constructor table of the bindings) -/
+
+/-- **the hazard `_check_arg_list` exists for**: the generated constructor ignores every keyword that is not the
+    name of one of its parameters — the object built from the full keyword list is the object built from the
+    keywords the wiring of the class is fed by -/
+theorem c09_ctor_swallows (C : CtorTable) (env : Env) (cls : Nat) (kw : Kwargs) (oid : Nat) :
+    construct C env cls kw oid =
+      construct C env cls (kw.filter (fun p => (givenNames C cls).contains p.1)) oid := by
   unfold construct
   congr 1
-  apply List.map_congr_left
-  intro m hm
-  have hin : (T.memberNames cls).contains m.name = true := by
-    simp only [List.contains_eq_mem, decide_eq_true_eq, Table.memberNames]
-    exact List.mem_map_of_mem hm
-  rw [lookup_filter_keys kw _ m.name hin]
+  have : ∀ (l : List Assign), (∀ a ∈ l, a ∈ wiring C cls) →
+      mapOpt (Assign.eval env kw) l =
+        mapOpt (Assign.eval env (kw.filter (fun p => (givenNames C cls).contains p.1))) l := by
+    intro l
+    induction l with
+    | nil => intro _; rfl
+    | cons a r ih =>
+      intro hall
+      have ha := hall a List.mem_cons_self
+      have hev : Assign.eval env (kw.filter (fun p => (givenNames C cls).contains p.1)) a = Assign.eval env kw a := by
+        unfold Assign.eval
+        rw [eval_filter (givenNames C cls) kw a.src]
+        cases hs : a.src with
+        | const _ => trivial
+        | given n d =>
+          simp only [List.contains_eq_mem, decide_eq_true_eq, givenNames, List.mem_filterMap]
+          exact ⟨a, ha, by simp [hs]⟩
+      simp only [mapOpt, hev, ih (fun b hb => hall b (List.mem_cons_of_mem _ hb))]
+  exact this _ (fun _ h => h)
 
-/-- **Validation off ⇒ unvalidated.** Switch off or `validate=False`, every keyword a member name, no constructor
-    cast failure: the component is returned as built — no call to `validate()` decides anything
+/-- **What the constructor really stores.** Every assignment of the constructor chain whose attribute is assigned
+    once along the chain (`assignedOnce`: decided, together with the wiring being by name, for every member of
+    every class of the generated table on every run) leaves under its attribute the `_cast` of the value that
+    reaches it; when it is fed by the keyword of its own name (`.given`), that is the cast of the caller's value,
+    or of the default literal when the keyword is absent. -/
+theorem c09_ctor_stores (C : CtorTable) (env : Env) (cls : Nat) (kw : Kwargs) (oid : Nat) (o : Obj)
+    (a : Assign) (ha : a ∈ wiring C cls) (hok : assignedOnce C cls a.field = true)
+    (h : construct C env cls kw oid = some o) :
+    o.cls = cls ∧ o.oid = oid ∧
+    ∃ v, pyCast env a.by_ (a.src.eval kw) = some v ∧ o.get a.field = some v := by
+  unfold construct at h
+  cases hm : mapOpt (Assign.eval env kw) (wiring C cls) with
+  | none => simp [hm] at h
+  | some l =>
+    simp only [hm, Option.map_some, Option.some.injEq] at h
+    subst h
+    obtain ⟨hkeys, hall⟩ := evalAll_spec env kw _ l hm
+    obtain ⟨v, hv, hmem⟩ := hall a ha
+    refine ⟨rfl, rfl, v, hv, ?_⟩
+    have hnd : (l.map (·.1)).count a.field = 1 := by
+      rw [hkeys]; simpa [assignedOnce] using hok
+    exact lookup_foldl_setF_mem l [] a.field v hnd hmem
+
+/-- … in particular a keyword that names a parameter stored by the chain arrives under the attribute of the same
+    name, cast as the assigning class casts it -/
+theorem c09_ctor_stores_keyword (C : CtorTable) (env : Env) (cls : Nat) (kw : Kwargs) (oid : Nat) (o : Obj)
+    (a : Assign) (ha : a ∈ wiring C cls) (hok : assignedOnce C cls a.field = true)
+    (h : construct C env cls kw oid = some o)
+    (d : Val) (hsrc : a.src = .given a.field d) (v : Val) (hk : lookup kw a.field = some v) :
+    ∃ w, pyCast env a.by_ v = some w ∧ o.get a.field = some w := by
+  obtain ⟨_, _, w, hw, hget⟩ := c09_ctor_stores C env cls kw oid o a ha hok h
+  refine ⟨w, ?_, hget⟩
+  rw [hsrc] at hw
+  simpa [Src.eval, hk] using hw
+
+/-- … and an absent keyword leaves the cast of the default literal -/
+theorem c09_ctor_stores_default (C : CtorTable) (env : Env) (cls : Nat) (kw : Kwargs) (oid : Nat) (o : Obj)
+    (a : Assign) (ha : a ∈ wiring C cls) (hok : assignedOnce C cls a.field = true)
+    (h : construct C env cls kw oid = some o)
+    (d : Val) (hsrc : a.src = .given a.field d) (hk : lookup kw a.field = none) :
+    ∃ w, pyCast env a.by_ d = some w ∧ o.get a.field = some w := by
+  obtain ⟨_, _, w, hw, hget⟩ := c09_ctor_stores C env cls kw oid o a ha hok h
+  refine ⟨w, ?_, hget⟩
+  rw [hsrc] at hw
+  simpa [Src.eval, hk] using hw
+
+/-- the constructor raises (`ValueError` from `int()`/`float()`) exactly when some assignment's cast fails -/
+theorem c09_ctor_fails_iff (C : CtorTable) (env : Env) (cls : Nat) (kw : Kwargs) (oid : Nat) :
+    construct C env cls kw oid = none ↔ ∃ a ∈ wiring C cls, pyCast env a.by_ (a.src.eval kw) = none := by
+  unfold construct
+  have : ∀ (l : List Assign), mapOpt (Assign.eval env kw) l = none ↔
+      ∃ a ∈ l, pyCast env a.by_ (a.src.eval kw) = none := by
+    intro l
+    induction l with
+    | nil => simp [mapOpt]
+    | cons a r ih =>
+      simp only [mapOpt, List.mem_cons, exists_eq_or_imp]
+      cases hc : pyCast env a.by_ (a.src.eval kw) with
+      | none => simp [Assign.eval, hc]
+      | some v =>
+        cases hr : mapOpt (Assign.eval env kw) r with
+        | none =>
+          simp only [Assign.eval, hc, Option.map_some, reduceCtorEq, false_or, true_iff]
+          exact ih.mp hr
+        | some rs =>
+          simp only [Assign.eval, hc, Option.map_some, reduceCtorEq, false_or, false_iff]
+          intro hex
+          have := ih.mpr hex
+          rw [hr] at this; cases this
+  rw [← this]
+  cases mapOpt (Assign.eval env kw) (wiring C cls) <;> simp
+
+/-! ### Validation off -/
+
+/-- **Validation off ⇒ unvalidated.** Switch off or `validate=False`, every keyword a member name, the constructor
+    does not raise: the component is returned as built — no call to `validate()` decides anything
     (`env.valid` does not occur on the right-hand side). -/
-theorem c09_off (T : Table) (env : Env) (enabled flag : Bool) (t : TypeArg) (kw : Kwargs) (oid : Nat)
-    (hoff : (enabled && flag) = false) (hcls : T.row? t.resolve ≠ none)
-    (hkeys : ∀ k ∈ keys kw, k ∈ T.memberNames t.resolve) (hctor : env.ctorFails t.resolve kw = false) :
-    factory T env enabled flag t kw oid = .ok (built T env t.resolve kw oid) := by
-  rcases factory_cases T env enabled flag t kw oid with ⟨hr, _⟩ | ⟨hc, _⟩ | ⟨_, _, k, hf, _, _⟩ |
-      ⟨_, _, _, hres⟩
+theorem c09_off (T : Table) (C : CtorTable) (env : Env) (enabled flag : Bool) (t : TypeArg) (kw : Kwargs) (oid : Nat)
+    (o : Obj) (hoff : (enabled && flag) = false) (hcls : T.row? t.resolve ≠ none)
+    (hkeys : ∀ k ∈ keys kw, k ∈ T.memberNames t.resolve) (hctor : construct C env t.resolve kw oid = some o) :
+    factory T C env enabled flag t kw oid = .ok (built env t.resolve o) := by
+  rcases factory_cases T C env enabled flag t kw oid with ⟨hr, _⟩ | ⟨hc, _⟩ | ⟨_, _, k, hf, _, _⟩ |
+      ⟨_, _, o', ho', hres⟩
   · exact absurd hr hcls
   · rw [hctor] at hc; cases hc
   · exfalso
@@ -109,18 +215,21 @@ theorem c09_off (T : Table) (env : Env) (enabled flag : Bool) (t : TypeArg) (kw 
     have := hkeys k h1
     simp only [Bool.not_eq_true', List.contains_eq_mem, decide_eq_false_iff_not] at h2
     exact h2 this
-  · rw [hres, hoff]; rfl
+  · rw [hctor] at ho'
+    simp only [Option.some.injEq] at ho'
+    subst ho'
+    rw [hres, hoff]; rfl
 
 /-- … in particular an INVALID component is handed back when validation is off -/
-theorem c09_off_returns_invalid (T : Table) (env : Env) (enabled flag : Bool) (t : TypeArg) (kw : Kwargs)
-    (oid : Nat) (hoff : (enabled && flag) = false) (hcls : T.row? t.resolve ≠ none)
-    (hkeys : ∀ k ∈ keys kw, k ∈ T.memberNames t.resolve) (hctor : env.ctorFails t.resolve kw = false)
-    (hinv : env.valid (built T env t.resolve kw oid) = false) :
-    (∃ o, factory T env enabled flag t kw oid = .ok o ∧ env.valid o = false) ∧
-    factory T env true true t kw oid = .error .invalid := by
-  refine ⟨⟨_, c09_off T env enabled flag t kw oid hoff hcls hkeys hctor, hinv⟩, ?_⟩
-  rcases factory_cases T env true true t kw oid with ⟨hr, _⟩ | ⟨hc, _⟩ | ⟨_, _, k, hf, _, _⟩ |
-      ⟨_, _, _, hres⟩
+theorem c09_off_returns_invalid (T : Table) (C : CtorTable) (env : Env) (enabled flag : Bool) (t : TypeArg)
+    (kw : Kwargs) (oid : Nat) (o : Obj) (hoff : (enabled && flag) = false) (hcls : T.row? t.resolve ≠ none)
+    (hkeys : ∀ k ∈ keys kw, k ∈ T.memberNames t.resolve) (hctor : construct C env t.resolve kw oid = some o)
+    (hinv : env.valid (built env t.resolve o) = false) :
+    (∃ o', factory T C env enabled flag t kw oid = .ok o' ∧ env.valid o' = false) ∧
+    factory T C env true true t kw oid = .error .invalid := by
+  refine ⟨⟨_, c09_off T C env enabled flag t kw oid o hoff hcls hkeys hctor, hinv⟩, ?_⟩
+  rcases factory_cases T C env true true t kw oid with ⟨hr, _⟩ | ⟨hc, _⟩ | ⟨_, _, k, hf, _, _⟩ |
+      ⟨_, _, o', ho', hres⟩
   · exact absurd hr hcls
   · rw [hctor] at hc; cases hc
   · exfalso
@@ -129,55 +238,75 @@ theorem c09_off_returns_invalid (T : Table) (env : Env) (enabled flag : Bool) (t
     have h2 := List.find?_some hf
     simp only [Bool.not_eq_true', List.contains_eq_mem, decide_eq_false_iff_not] at h2
     exact h2 (hkeys k h1)
-  · rw [hres]; simp [hinv]
+  · rw [hctor] at ho'
+    simp only [Option.some.injEq] at ho'
+    subst ho'
+    rw [hres]; simp [hinv]
 
 /-- **The global switch overrides the per-call flag**: with the switch off, `validate=True` and `validate=False`
     are the same call … -/
-theorem c09_switch_overrides (T : Table) (env : Env) (flag : Bool) (t : TypeArg) (kw : Kwargs) (oid : Nat) :
-    factory T env false flag t kw oid = factory T env false false t kw oid := by
+theorem c09_switch_overrides (T : Table) (C : CtorTable) (env : Env) (flag : Bool) (t : TypeArg) (kw : Kwargs)
+    (oid : Nat) : factory T C env false flag t kw oid = factory T C env false false t kw oid := by
   simp only [factory, Bool.false_and]
 
 /-- … and `validate=False` is the same call whatever the switch says: validation happens iff BOTH are on -/
-theorem c09_flag_off (T : Table) (env : Env) (enabled : Bool) (t : TypeArg) (kw : Kwargs) (oid : Nat) :
-    factory T env enabled false t kw oid = factory T env false false t kw oid := by
+theorem c09_flag_off (T : Table) (C : CtorTable) (env : Env) (enabled : Bool) (t : TypeArg) (kw : Kwargs) (oid : Nat) :
+    factory T C env enabled false t kw oid = factory T C env false false t kw oid := by
   simp only [factory, Bool.and_false]
 
+/-- with validation off the verdict of `validate()` plays no role at all: two environments that differ only in
+    `valid` give the same outcome (returned component or error) -/
+theorem c09_off_ignores_validate (T : Table) (C : CtorTable) (env env' : Env) (enabled flag : Bool) (t : TypeArg)
+    (kw : Kwargs) (oid : Nat) (hoff : (enabled && flag) = false)
+    (hsame : env'.pyInt = env.pyInt ∧ env'.pyFloat = env.pyFloat ∧ env'.cellCls = env.cellCls ∧
+      env'.setupCell = env.setupCell) :
+    factory T C env enabled flag t kw oid = factory T C env' enabled flag t kw oid := by
+  obtain ⟨h1, h2, h3, h4⟩ := hsame
+  have hc : construct C env' t.resolve kw oid = construct C env t.resolve kw oid := by
+    unfold construct
+    congr 2
+    funext a
+    simp only [Assign.eval, pyCast, h1, h2]
+  simp only [factory, built, hoff, hc, h3, h4]
+  rfl
+
 /-- **String and class form of the type argument agree** (both go through `getattr(module, name)`) -/
-theorem c09_forms_agree (T : Table) (env : Env) (enabled flag : Bool) (n : Nat) (kw : Kwargs) (oid : Nat) :
-    factory T env enabled flag (.byName n) kw oid = factory T env enabled flag (.byClass n) kw oid := rfl
+theorem c09_forms_agree (T : Table) (C : CtorTable) (env : Env) (enabled flag : Bool) (n : Nat) (kw : Kwargs)
+    (oid : Nat) :
+    factory T C env enabled flag (.byName n) kw oid = factory T C env enabled flag (.byClass n) kw oid := rfl
 
 /-! ### `add()` with a type argument -/
 
 /-- a factory error (misspelt keyword, invalid component, …) reaches the caller and the parent is untouched -/
-theorem c09_add_factory_error (T : Table) (env : Env) (strOk : Obj → Bool) (enabled flag : Bool) (parent : Obj)
-    (t : TypeArg) (kw : Kwargs) (hint : Option Nat) (force : Bool) (oid : Nat) (e : Err)
-    (h : factory T env enabled flag t kw oid = .error e) :
-    addByType T env strOk enabled flag parent t kw hint force oid = ⟨parent, none, .error (.inl e)⟩ := by
+theorem c09_add_factory_error (T : Table) (C : CtorTable) (env : Env) (strOk : Obj → Bool) (enabled flag : Bool)
+    (parent : Obj) (t : TypeArg) (kw : Kwargs) (hint : Option Nat) (force : Bool) (oid : Nat) (e : Err)
+    (h : factory T C env enabled flag t kw oid = .error e) :
+    addByType T C env strOk enabled flag parent t kw hint force oid = ⟨parent, none, .error (.inl e)⟩ := by
   simp only [addByType, h]
 
 /-- **`add(<type>, …)`: a misspelt keyword is refused under every switch setting, parent unchanged** -/
-theorem c09_add_typo (T : Table) (env : Env) (strOk : Obj → Bool) (parent : Obj) (t : TypeArg) (kw : Kwargs)
-    (hint : Option Nat) (force : Bool) (oid k : Nat) (hcls : T.row? t.resolve ≠ none) (hk : k ∈ keys kw)
-    (hnm : k ∉ T.memberNames t.resolve) :
+theorem c09_add_typo (T : Table) (C : CtorTable) (env : Env) (strOk : Obj → Bool) (parent : Obj) (t : TypeArg)
+    (kw : Kwargs) (hint : Option Nat) (force : Bool) (oid k : Nat) (hcls : T.row? t.resolve ≠ none)
+    (hk : k ∈ keys kw) (hnm : k ∉ T.memberNames t.resolve) :
     ∀ enabled flag, ∃ e, e.isValueError = true ∧
-      addByType T env strOk enabled flag parent t kw hint force oid = ⟨parent, none, .error (.inl e)⟩ := by
+      addByType T C env strOk enabled flag parent t kw hint force oid = ⟨parent, none, .error (.inl e)⟩ := by
   intro enabled flag
-  obtain ⟨e, he, hv⟩ := c09_typo T env t kw oid k hcls hk hnm enabled flag
-  exact ⟨e, hv, c09_add_factory_error T env strOk enabled flag parent t kw hint force oid e he⟩
+  obtain ⟨e, he, hv⟩ := c09_typo T C env t kw oid k hcls hk hnm enabled flag
+  exact ⟨e, hv, c09_add_factory_error T C env strOk enabled flag parent t kw hint force oid e he⟩
 
 /-- **`add(<type>, …)` with validation on**: whenever it returns, the returned (new) component validates AND the
     parent as it now is validates — the same gate guards both -/
-theorem c09_add_valid (T : Table) (env : Env) (strOk : Obj → Bool) (parent : Obj) (t : TypeArg) (kw : Kwargs)
-    (hint : Option Nat) (force : Bool) (oid : Nat) (o : Obj)
-    (h : (addByType T env strOk true true parent t kw hint force oid).result = .ok o) :
-    env.valid o = true ∧ env.valid (addByType T env strOk true true parent t kw hint force oid).parent = true := by
+theorem c09_add_valid (T : Table) (C : CtorTable) (env : Env) (strOk : Obj → Bool) (parent : Obj) (t : TypeArg)
+    (kw : Kwargs) (hint : Option Nat) (force : Bool) (oid : Nat) (o : Obj)
+    (h : (addByType T C env strOk true true parent t kw hint force oid).result = .ok o) :
+    env.valid o = true ∧ env.valid (addByType T C env strOk true true parent t kw hint force oid).parent = true := by
   unfold addByType at h ⊢
-  cases hf : factory T env true true t kw oid with
+  cases hf : factory T C env true true t kw oid with
   | error e => rw [hf] at h; cases h
   | ok child =>
     simp only [hf] at h
     simp only
-    have hcv := c09_valid T env t kw oid child hf
+    have hcv := c09_valid T C env t kw oid child hf
     cases hr : (Add.add T env.valid strOk ⟨true, true⟩ parent child hint force).result with
     | error e => rw [hr] at h; cases h
     | ok o' =>
@@ -190,20 +319,17 @@ theorem c09_add_valid (T : Table) (env : Env) (strOk : Obj → Bool) (parent : O
 
 /-- **`add(<type>, …)` with validation off** (switch off or `validate=False`): nothing is validated — the outcome
     is the one of `add` with the component as built, whatever `validate()` would say about child or parent -/
-theorem c09_add_off (T : Table) (env env' : Env) (strOk : Obj → Bool) (enabled flag : Bool) (parent : Obj)
-    (t : TypeArg) (kw : Kwargs) (hint : Option Nat) (force : Bool) (oid : Nat)
+theorem c09_add_off (T : Table) (C : CtorTable) (env env' : Env) (strOk : Obj → Bool) (enabled flag : Bool)
+    (parent : Obj) (t : TypeArg) (kw : Kwargs) (hint : Option Nat) (force : Bool) (oid : Nat)
     (hoff : (enabled && flag) = false)
-    (hsame : env'.ctorFails = env.ctorFails ∧ env'.cellCls = env.cellCls ∧ env'.setupCell = env.setupCell ∧
-      env'.ctorValue = env.ctorValue) :
-    addByType T env strOk enabled flag parent t kw hint force oid =
-      addByType T env' strOk enabled flag parent t kw hint force oid := by
-  obtain ⟨h1, h2, h3, h4⟩ := hsame
-  have hfac : factory T env enabled flag t kw oid = factory T env' enabled flag t kw oid := by
-    simp only [factory, built, construct, hoff, h1, h2, h3, h4]
-    rfl
+    (hsame : env'.pyInt = env.pyInt ∧ env'.pyFloat = env.pyFloat ∧ env'.cellCls = env.cellCls ∧
+      env'.setupCell = env.setupCell) :
+    addByType T C env strOk enabled flag parent t kw hint force oid =
+      addByType T C env' strOk enabled flag parent t kw hint force oid := by
+  have hfac := c09_off_ignores_validate T C env env' enabled flag t kw oid hoff hsame
   unfold addByType
   rw [← hfac]
-  cases factory T env enabled flag t kw oid with
+  cases factory T C env enabled flag t kw oid with
   | error e => rfl
   | ok child =>
     simp only
@@ -222,52 +348,169 @@ theorem c09_switch_make (s : Bool) (pre : List Cmd) (f : Bool) (t : TypeArg) (kw
     switchAfter s (pre ++ [.make f t kw oid]) = switchAfter s pre := by
   simp [switchAfter, List.foldl_append, stepSwitch]
 
-/-- **Sessions.** After ANY history of enable / disable / factory commands, a factory call behaves as
-    `factory` under the switch value the history left behind; the session's final switch is that value. -/
-theorem c09_session (T : Table) (env : Env) : ∀ (pre : List Cmd) (s : Bool) (f : Bool) (t : TypeArg) (kw : Kwargs)
-    (oid : Nat),
-    session T env s (pre ++ [.make f t kw oid]) =
-      (switchAfter s pre, (session T env s pre).2 ++ [factory T env (switchAfter s pre) f t kw oid])
+/-- the switch after a history is what its LAST toggle set, or the initial value when there was none: calls —
+    returning or raising, by the factory or by `add` — leave it untouched -/
+theorem c09_switch_last_toggle (s : Bool) (cmds : List Cmd) :
+    switchAfter s cmds = match (cmds.filter Cmd.isToggle).getLast? with
+      | some .enable => true
+      | some .disable => false
+      | _ => s := by
+  unfold switchAfter
+  induction cmds generalizing s with
+  | nil => rfl
+  | cons c cs ih =>
+    simp only [List.foldl_cons]
+    rw [ih]
+    cases c with
+    | enable =>
+      simp only [stepSwitch, List.filter_cons, Cmd.isToggle, ↓reduceIte]
+      cases hl : (cs.filter Cmd.isToggle).getLast? with
+      | none =>
+        have : cs.filter Cmd.isToggle = [] := List.getLast?_eq_none_iff.mp hl
+        simp [this]
+      | some x =>
+        have hx : x.isToggle = true := (List.mem_filter.mp (List.mem_of_getLast? hl)).2
+        rw [List.getLast?_cons, hl]
+        cases x <;> simp_all [Cmd.isToggle]
+    | disable =>
+      simp only [stepSwitch, List.filter_cons, Cmd.isToggle, ↓reduceIte]
+      cases hl : (cs.filter Cmd.isToggle).getLast? with
+      | none =>
+        have : cs.filter Cmd.isToggle = [] := List.getLast?_eq_none_iff.mp hl
+        simp [this]
+      | some x =>
+        have hx : x.isToggle = true := (List.mem_filter.mp (List.mem_of_getLast? hl)).2
+        rw [List.getLast?_cons, hl]
+        cases x <;> simp_all [Cmd.isToggle]
+    | make f t kw oid => simp [stepSwitch, Cmd.isToggle]
+    | addT sk f p t kw h fo oid => simp [stepSwitch, Cmd.isToggle]
+
+/-- the session's final switch is `switchAfter` -/
+theorem c09_session_switch (T : Table) (C : CtorTable) (env : Env) : ∀ (cmds : List Cmd) (s : Bool),
+    (session T C env s cmds).1 = switchAfter s cmds
+  | [], _ => rfl
+  | .enable :: cs, s => by
+    simpa [session, switchAfter, stepSwitch] using c09_session_switch T C env cs true
+  | .disable :: cs, s => by
+    simpa [session, switchAfter, stepSwitch] using c09_session_switch T C env cs false
+  | .make _ _ _ _ :: cs, s => by
+    simpa [session, switchAfter, stepSwitch] using c09_session_switch T C env cs s
+  | .addT _ _ _ _ _ _ _ _ :: cs, s => by
+    simpa [session, switchAfter, stepSwitch] using c09_session_switch T C env cs s
+
+/-- **Sessions.** After ANY history of enable / disable / factory / add commands (whatever they returned or
+    raised), a factory call behaves as `factory` under the switch value the history left behind; the session's
+    final switch is that value. -/
+theorem c09_session (T : Table) (C : CtorTable) (env : Env) : ∀ (pre : List Cmd) (s : Bool) (f : Bool) (t : TypeArg)
+    (kw : Kwargs) (oid : Nat),
+    session T C env s (pre ++ [.make f t kw oid]) =
+      (switchAfter s pre, (session T C env s pre).2 ++ [.made (factory T C env (switchAfter s pre) f t kw oid)])
   | [], s, f, t, kw, oid => by simp [session, switchAfter]
   | .enable :: cs, s, f, t, kw, oid => by
-    have ih := c09_session T env cs true f t kw oid
+    have ih := c09_session T C env cs true f t kw oid
     simp only [List.cons_append, session, stepSwitch, switchAfter, List.foldl_cons] at ih ⊢
     exact ih
   | .disable :: cs, s, f, t, kw, oid => by
-    have ih := c09_session T env cs false f t kw oid
+    have ih := c09_session T C env cs false f t kw oid
     simp only [List.cons_append, session, stepSwitch, switchAfter, List.foldl_cons] at ih ⊢
     exact ih
   | .make f' t' kw' oid' :: cs, s, f, t, kw, oid => by
-    have ih := c09_session T env cs s f t kw oid
+    have ih := c09_session T C env cs s f t kw oid
+    simp only [List.cons_append, session, stepSwitch, switchAfter, List.foldl_cons] at ih ⊢
+    rw [ih]
+  | .addT sk f' p' t' kw' h' fo' oid' :: cs, s, f, t, kw, oid => by
+    have ih := c09_session T C env cs s f t kw oid
+    simp only [List.cons_append, session, stepSwitch, switchAfter, List.foldl_cons] at ih ⊢
+    rw [ih]
+
+/-- the same for an `add(<type>)` call at the end of any history -/
+theorem c09_session_add (T : Table) (C : CtorTable) (env : Env) : ∀ (pre : List Cmd) (s : Bool) (sk : Obj → Bool)
+    (f : Bool) (p : Obj) (t : TypeArg) (kw : Kwargs) (h : Option Nat) (fo : Bool) (oid : Nat),
+    session T C env s (pre ++ [.addT sk f p t kw h fo oid]) =
+      (switchAfter s pre,
+       (session T C env s pre).2 ++ [.added (addByType T C env sk (switchAfter s pre) f p t kw h fo oid)])
+  | [], s, sk, f, p, t, kw, h, fo, oid => by simp [session, switchAfter]
+  | .enable :: cs, s, sk, f, p, t, kw, h, fo, oid => by
+    have ih := c09_session_add T C env cs true sk f p t kw h fo oid
+    simp only [List.cons_append, session, stepSwitch, switchAfter, List.foldl_cons] at ih ⊢
+    exact ih
+  | .disable :: cs, s, sk, f, p, t, kw, h, fo, oid => by
+    have ih := c09_session_add T C env cs false sk f p t kw h fo oid
+    simp only [List.cons_append, session, stepSwitch, switchAfter, List.foldl_cons] at ih ⊢
+    exact ih
+  | .make f' t' kw' oid' :: cs, s, sk, f, p, t, kw, h, fo, oid => by
+    have ih := c09_session_add T C env cs s sk f p t kw h fo oid
+    simp only [List.cons_append, session, stepSwitch, switchAfter, List.foldl_cons] at ih ⊢
+    rw [ih]
+  | .addT sk' f' p' t' kw' h' fo' oid' :: cs, s, sk, f, p, t, kw, h, fo, oid => by
+    have ih := c09_session_add T C env cs s sk f p t kw h fo oid
     simp only [List.cons_append, session, stepSwitch, switchAfter, List.foldl_cons] at ih ⊢
     rw [ih]
 
 /-- **Disable, then enable, restores checking**: whatever happened before and in between (including further
-    toggles and factory calls), once `enable` was the last toggle a `validate=True` call is checked again:
+    toggles and calls that raised), once `enable` was the last toggle a `validate=True` call is checked again:
     it returns only components that validate. -/
-theorem c09_reenable_restores (T : Table) (env : Env) (s : Bool) (pre mid : List Cmd) (makes : List Cmd)
-    (hmakes : ∀ c ∈ makes, ∃ f t kw oid, c = .make f t kw oid) (t : TypeArg) (kw : Kwargs) (oid : Nat) (o : Obj)
-    (h : (session T env s (pre ++ [.disable] ++ mid ++ [.enable] ++ makes ++ [.make true t kw oid])).2.getLast?
-          = some (.ok o)) :
+theorem c09_reenable_restores (T : Table) (C : CtorTable) (env : Env) (s : Bool) (pre mid : List Cmd)
+    (calls : List Cmd) (hcalls : ∀ c ∈ calls, c.isToggle = false) (t : TypeArg) (kw : Kwargs) (oid : Nat) (o : Obj)
+    (h : (session T C env s (pre ++ [.disable] ++ mid ++ [.enable] ++ calls ++ [.make true t kw oid])).2.getLast?
+          = some (.made (.ok o))) :
     env.valid o = true := by
   rw [c09_session] at h
-  simp only [List.getLast?_append, List.getLast?_singleton, Option.some_or, Option.some.injEq] at h
-  have hsw : switchAfter s (pre ++ [.disable] ++ mid ++ [.enable] ++ makes) = true := by
-    have : ∀ (ms : List Cmd) (b : Bool), (∀ c ∈ ms, ∃ f t kw oid, c = Cmd.make f t kw oid) →
-        ms.foldl stepSwitch b = b := by
+  simp only [List.getLast?_append, List.getLast?_singleton, Option.some_or, Option.some.injEq, Res.made.injEq] at h
+  have hsw : switchAfter s (pre ++ [.disable] ++ mid ++ [.enable] ++ calls) = true := by
+    have : ∀ (ms : List Cmd) (b : Bool), (∀ c ∈ ms, c.isToggle = false) → ms.foldl stepSwitch b = b := by
       intro ms
       induction ms with
       | nil => intros; rfl
       | cons c cs ih =>
         intro b hall
-        obtain ⟨f, t, kw, oid, rfl⟩ := hall _ (List.mem_cons_self)
-        simp only [List.foldl_cons, stepSwitch]
+        have hc := hall c List.mem_cons_self
+        simp only [List.foldl_cons]
+        have : stepSwitch b c = b := by
+          cases c <;> simp_all [stepSwitch, Cmd.isToggle]
+        rw [this]
         exact ih b (fun c hc => hall c (List.mem_cons_of_mem _ hc))
     unfold switchAfter
-    rw [List.foldl_append, this makes _ hmakes]
+    rw [List.foldl_append, this calls _ hcalls]
     simp [List.foldl_append, stepSwitch]
   rw [hsw] at h
-  exact c09_valid T env t kw oid o h
+  exact c09_valid T C env t kw oid o h
+
+/-- **With validation disabled globally the same calls return the component unvalidated — for whole histories.**
+    A history that starts with the switch off and never enables it gives the same results (every returned
+    component, every error, every parent) whatever `validate()` would say: nothing is validated anywhere, whatever
+    the per-call flags are. -/
+theorem c09_session_off_unvalidated (T : Table) (C : CtorTable) (env env' : Env)
+    (hsame : env'.pyInt = env.pyInt ∧ env'.pyFloat = env.pyFloat ∧ env'.cellCls = env.cellCls ∧
+      env'.setupCell = env.setupCell) :
+    ∀ (cmds : List Cmd), (∀ c ∈ cmds, c ≠ .enable) → session T C env false cmds = session T C env' false cmds
+  | [], _ => rfl
+  | .enable :: _, h => absurd rfl (h .enable List.mem_cons_self)
+  | .disable :: cs, h => by
+    simp only [session]
+    exact c09_session_off_unvalidated T C env env' hsame cs (fun c hc => h c (List.mem_cons_of_mem _ hc))
+  | .make f t kw oid :: cs, h => by
+    simp only [session]
+    rw [c09_session_off_unvalidated T C env env' hsame cs (fun c hc => h c (List.mem_cons_of_mem _ hc)),
+      c09_off_ignores_validate T C env env' false f t kw oid (by simp) hsame]
+  | .addT sk f p t kw hi fo oid :: cs, h => by
+    simp only [session]
+    rw [c09_session_off_unvalidated T C env env' hsame cs (fun c hc => h c (List.mem_cons_of_mem _ hc)),
+      c09_add_off T C env env' sk false f p t kw hi fo oid (by simp) hsame]
+
+/-! ### Helper call sites -/
+
+/-- a gated call site validates exactly when the switch is on and its flag (default / literal / the caller's) is:
+    with the switch off no site validates, whatever its flag -/
+theorem c09_site_obeys_switch (s : Site) (flagArg : Bool) : s.validates false flagArg = false := by
+  simp [Site.validates]
+
+/-- a site with a literal `validate=False` never validates; a default site validates iff the switch is on -/
+theorem c09_site_flag (s : Site) (enabled flagArg : Bool) :
+    (s.flag = .lit false → s.validates enabled flagArg = false) ∧
+    (s.flag = .dflt → s.validates enabled flagArg = enabled) ∧
+    (s.flag = .param → s.validates enabled flagArg = (enabled && flagArg)) := by
+  refine ⟨?_, ?_, ?_⟩ <;> intro h <;> simp [Site.validates, h]
 
 /-! ### Obligations on the table extracted from `nml.py` (re-checked on every run) -/
 
@@ -280,11 +523,17 @@ theorem c09_gen_no_reserved_member_names :
 namespace Ex
 
 def T0 : Table := [⟨0, none, [⟨10, 50, false, false⟩, ⟨11, 51, false, true⟩, ⟨12, 1, true, true⟩]⟩, ⟨1, some 0, [⟨13, 50, false, true⟩]⟩]
-/-- valid iff the required member 10 is set to a truthy value -/
+/-- class 1 derives from class 0 and hands members 10, 11, 12 over positionally; 11 is cast with `int`, 12 is a
+    list, 13 has the default literal `'d'`; class 0 has a trailing parameter 14 that class 1 does not hand over -/
+def C0 : CtorTable := [
+  ⟨0, none, [⟨10, none, none, 1, false⟩, ⟨11, none, none, 3, false⟩, ⟨12, none, none, 2, true⟩, ⟨14, none, none, 2, false⟩], []⟩,
+  ⟨1, some 0, [⟨10, none, none, 0, false⟩, ⟨11, none, none, 0, false⟩, ⟨12, none, none, 0, false⟩,
+               ⟨13, some ("str:'d'", true), some "d", 1, false⟩], [10, 11, 12]⟩]
+/-- valid iff the required member 10 is set to a truthy value; `int()` accepts only the atom "str:'7'" -/
 def env0 : Env where
   valid := fun o => match o.get 10 with | some v => v.truthy | none => false
-  ctorFails := fun _ kw => (lookup kw 11).isSome
-  ctorValue := fun _ n v => match v with | some x => x | none => if n == 12 then .list [] else .none
+  pyInt := fun v => match v with | .atom "str:'7'" _ => some (.atom "int:7" true) | _ => none
+  pyFloat := fun _ => none
   cellCls := 99
   setupCell := id
 def good : Kwargs := [(10, .atom "str:'a'" true), (13, .atom "str:'b'" true)]
@@ -293,21 +542,51 @@ def incomplete : Kwargs := [(13, .atom "str:'b'" true)]
 
 example : T0.row? (TypeArg.byName 1).resolve ≠ none := by decide
 -- c09_valid / c09_valid_or_raises: a valid one comes back, an invalid one raises
-example : (factory T0 env0 true true (.byName 1) good 5).toOption.isSome = true := by decide
-example : factory T0 env0 true true (.byName 1) incomplete 5 = .error .invalid := rfl
+example : (factory T0 C0 env0 true true (.byName 1) good 5).toOption.isSome = true := by decide
+example : factory T0 C0 env0 true true (.byName 1) incomplete 5 = .error .invalid := rfl
 -- c09_typo: 77 is a keyword, not a member name (class 1 has members 13, 10, 11, 12)
 example : (77 : Nat) ∈ keys typo ∧ (77 : Nat) ∉ T0.memberNames 1 := by decide
-example : factory T0 env0 false false (.byClass 1) typo 5 = .error (.badArg 77) := rfl
+example : factory T0 C0 env0 false false (.byClass 1) typo 5 = .error (.badArg 77) := rfl
 -- c09_off / c09_off_returns_invalid: validation off hands back the invalid component
-example : (∀ k ∈ keys incomplete, k ∈ T0.memberNames 1) ∧ env0.ctorFails 1 incomplete = false ∧
-    env0.valid (built T0 env0 1 incomplete 5) = false := by decide
+example : (∀ k ∈ keys incomplete, k ∈ T0.memberNames 1) ∧ (construct C0 env0 1 incomplete 5).isSome = true := by decide
+-- c09_ctor_stores: the wiring of class 1 is by name and assigns nothing twice; five assignments
+example : wiringOk C0 1 = true ∧ (wiring C0 1).length = 5 ∧ assignedOnce C0 1 11 = true := by decide
+-- … the keyword 11 reaches the `int` cast of the base class, the absent 13 leaves its default, 12 leaves `[]`
+example : (construct C0 env0 1 [(11, .atom "str:'7'" true)] 5).map (fun o => (o.fields.map (·.1))) = some [10, 11, 12, 14, 13] := by
+  decide
+example : ((construct C0 env0 1 [(11, .atom "str:'7'" true)] 5).bind (·.get 11)).map Val.truthy = some true := by decide
+-- c09_ctor_fails_iff: constructor cast failure
+example : factory T0 C0 env0 true true (.byName 0) [(11, .atom "str:'x'" true)] 5 = .error .ctorValueError := rfl
+example : factory T0 C0 env0 true true (.byName 7) [] 5 = .error .attrError := rfl
 -- c09_add_valid: a result exists
-example : ((addByType T0 env0 (fun _ => true) true true (construct T0 env0 0 [(10, .atom "str:'p'" true)] 1) (.byName 1)
-    good none false 2).result.toOption.isSome) = true := by decide
--- constructor cast failure
-example : factory T0 env0 true true (.byName 0) [(11, .atom "str:'x'" true)] 5 = .error .ctorValueError := rfl
-example : factory T0 env0 true true (.byName 7) [] 5 = .error .attrError := rfl
+example : ((addByType T0 C0 env0 (fun _ => true) true true (.mk 1 0 [(10, .atom "str:'p'" true), (11, .none), (12, .list [])])
+    (.byName 1) good none false 2).result.toOption.isSome) = true := by decide
+-- c09_reenable_restores / c09_session_off_unvalidated: histories of the required shape
+example : ∀ c ∈ [Cmd.make true (.byName 1) incomplete 3, Cmd.make false (.byName 7) [] 4], c.isToggle = false := by
+  intro c hc; simp at hc; rcases hc with rfl | rfl <;> rfl
+example : ∀ c ∈ [Cmd.disable, Cmd.make true (.byName 1) incomplete 3], c ≠ .enable := by
+  intro c hc; simp at hc; rcases hc with rfl | rfl <;> simp
+
+/-- `validate()` accepts, the schema does not (today: a negative `NonNegativeInteger`, a zero `PositiveInteger`):
+    `hsound` of `c09_schema_valid_partial` holds for the accepting judge and fails for this one -/
+def schemaRejects : Obj → Bool := fun _ => false
+example : ∀ o, env0.valid o = true → (fun _ => true) o = true := fun _ _ => rfl
 
 end Ex
+
+/-- … and it is false when `validate()` accepts something the schema rejects: the component comes back
+    (known finding `C09:invalid-returned:xsd:facet:*`) -/
+theorem c09_schema_valid_witness : ¬ c09_schema_valid_full := by
+  intro h
+  have hok : ∃ o, factory Ex.T0 Ex.C0 Ex.env0 true true (.byName 1) Ex.good 5 = .ok o := by
+    cases hf : factory Ex.T0 Ex.C0 Ex.env0 true true (.byName 1) Ex.good 5 with
+    | ok o => exact ⟨o, rfl⟩
+    | error e =>
+      have : (factory Ex.T0 Ex.C0 Ex.env0 true true (.byName 1) Ex.good 5).toOption.isSome = true := by decide
+      rw [hf] at this
+      cases this
+  obtain ⟨o, ho⟩ := hok
+  have := h Ex.T0 Ex.C0 Ex.env0 Ex.schemaRejects (.byName 1) Ex.good 5 o ho
+  cases this
 
 end NmlVerif.Factory
